@@ -60,13 +60,25 @@ type node struct {
 // Replay builds a fresh system and applies the events. It returns the index
 // and text of the first outcome disagreement, if any.
 func Replay(newSys func() *Sys, evs []Event) (*Sys, int, string) {
-	s := newSys()
+	s, bad, msg, _ := ReplayTaint(newSys, evs)
+	return s, bad, msg
+}
+
+// ReplayTaint is Replay that also returns the index of the event at which
+// the system became tainted (Sys.OnReopen), -1 if it did not.
+func ReplayTaint(newSys func() *Sys, evs []Event) (s *Sys, bad int, msg string, taintAt int) {
+	s = newSys()
+	taintAt = -1
 	for i, ev := range evs {
-		if m := s.Apply(ev); m != "" {
-			return s, i, m
+		m := s.Apply(ev)
+		if s.Tainted && taintAt < 0 {
+			taintAt = i
+		}
+		if m != "" {
+			return s, i, m, taintAt
 		}
 	}
-	return s, -1, ""
+	return s, -1, "", taintAt
 }
 
 func hashKey(s string) [16]byte {
@@ -203,12 +215,23 @@ func (x *Explorer) execute(seed []Event, nd node, ei int, changed bool) {
 		evs = append(evs, x.Events[p])
 	}
 	evs = append(evs, x.Events[ei])
-	s, bad, msg := Replay(x.New, evs)
+	s, bad, msg, taintAt := ReplayTaint(x.New, evs)
 	defer s.Close()
 	x.Executed++
 	c.Eval(1)
 	c.Transition(1)
 	c.TraceValidated(1)
+	if taintAt >= 0 && taintAt < len(evs)-1 {
+		// a close+reopen inside the path already disagreed with the model: that
+		// failure is reported for the prefix path (which is a transition of its
+		// own); what follows is its consequence
+		c.Count("transitions_after_an_earlier_reopen_failure", 1)
+		if s.TaintClass != "" {
+			x.Fail(Violation{Class: s.TaintClass, Msg: "consequence of an earlier failed close+reopen (event " +
+				evs[taintAt].String() + ")"}, evs[:taintAt+1])
+		}
+		return
+	}
 	if bad >= 0 {
 		x.Fail(Violation{Msg: msg}, evs[:bad+1])
 		return
